@@ -50,7 +50,9 @@ def minz(*xs):
 def run(chk):
     chk.trust('scipp model: vector algebra, where (with infinite branches decided per path), comparisons, sqrt, asin/atan2, '
               'rotations_from_rotvecs == Rodrigues formula, concat/vectors re-packing of three coordinate arrays')
-    chk.trust('instantiated facts about asin/atan2/sin/cos/exp; instantiation rule for identities over fresh variables')
+    chk.textbook('instantiated facts about asin/atan2/sin/cos/exp/sqrt/pi (vf/kit.py trig_axioms, atan2_axioms)',
+                 ['atan2_range', 'atan2_first_quadrant', 'atan2_upper', 'atan2_lower', 'atan2_pos_x_axis', 'atan2_neg_x_axis', 'atan2_pos_y_axis', 'atan2_cos', 'atan2_sin', 'atan2_cos_two', 'sqrt_facts', 'pi_bounds', 'arcsin_facts', "arcsin_nonneg'", "arcsin_zero'", 'sin_bounds', 'sin_pos_on', "sin_zero'", 'cos_bounds', 'exp_facts'])
+    chk.trust('instantiation rule for identities over fresh variables')
     chk.trust('numpy: chebgauss/leggauss return the Gauss nodes/weights (facts re-checked on the values actually produced)')
     chk.trust('z3 / cvc5')
     chk.assume('floats are reals; tangent rays are decided in exact arithmetic (discriminant == 0 counts as touching)')
@@ -466,7 +468,7 @@ def transmission_lemmas(chk):
     chk.prove(f'{P}/no-attenuation/step', [S == W, e == 1], S + w * e == W + w)
     chk.prove(f'{P}/monotone/step', [S1 >= S2, w > 0, e1 >= e2], S1 + w * e1 >= S2 + w * e2)
     mu1, mu2, L = R('mu1'), R('mu2'), R('L')
-    chk.trust('exp is positive, monotone, exp(0) == 1 (instantiated)')
+    chk.textbook('exp is positive, monotone, exp(0) == 1 (instantiated)', ['exp_facts', "exp_mono'"])
     chk.prove(f'{P}/exp-factor', [mu1 >= 0, mu2 >= mu1, L >= 0,
                                   z3.Implies(-mu2 * L <= -mu1 * L, EXP(-mu2 * L) <= EXP(-mu1 * L)),
                                   EXP(-mu1 * L) > 0, z3.Implies(-mu1 * L <= 0, EXP(-mu1 * L) <= 1), z3.Implies(mu1 * L == 0, EXP(-mu1 * L) == 1)],
